@@ -1,7 +1,7 @@
 (* C09 — Jailed validators have no power; unjail and tombstone rules hold. Statements only. *)
 From Coq Require Import List ZArith NArith Bool.
 From PM Require Import Base.Bytes Store.KV Store.MergeProofs Num.IntModel Num.DecModel Num.DecProofs
-  App.Model App.BankProofs App.TxProofs App.KeyProofs App.PosProofs App.IndexProofs App.TombProofs App.Examples App.Invariants.
+  App.Model App.BankProofs App.TxProofs App.KeyProofs App.PosProofs App.IndexProofs App.TombProofs App.UpdateProofs App.Examples App.Invariants.
 Import ListNotations.
 Local Open Scope Z_scope.
 
@@ -40,6 +40,17 @@ Proof. exact (tombstoned_never_indexed ops s s' a). Qed.
 Theorem C09_genesis_tomb_ok s0 gvals dao s ups : tomb_ok s0 -> (forall a, ~ tombed (sinfo s0) a) ->
   init_chain s0 gvals dao = Some (s, ups) -> tomb_ok s.
 Proof. exact (init_chain_tomb s0 gvals dao s ups). Qed.
+(* "From the validator-set update following its jailing ... absent from Tendermint's set": after ANY update of the set
+   (EndBlock of any reachable state) a validator that is jailed or not staked is not in the set the module reports to
+   Tendermint, and every member is a staked, unjailed validator with exactly the power of its stake *)
+Theorem C09_jailed_absent_from_the_reported_set s s' ups a v : idx_sound s -> dsorted true (prevpow s) ->
+  update_tm_validators s = Some (s', ups) -> get_val s a = Some v -> (v_jailed v = true \/ v_status v <> 2%N) ->
+  aget (prevpow s') a = None.
+Proof. exact (jailed_absent_from_tm_set s s' ups a v). Qed.
+Theorem C09_members_have_the_power_of_their_stake s s' ups a p : idx_sound s -> dsorted true (prevpow s) ->
+  update_tm_validators s = Some (s', ups) -> aget (prevpow s') a = Some p ->
+  exists v, get_val s a = Some v /\ v_status v = 2%N /\ v_jailed v = false /\ p = power_of (v_tokens v).
+Proof. exact (member_has_the_power_of_its_stake s s' ups a p). Qed.
 Example C09_ex : match ex_genesis with
   | Some (s, _) => match handle_double_sign (set_block s 5 50) A1 4 40 2 with
                    | Some s' => option_map v_jailed (get_val s' A1) = Some true /\ powidx s' = [] /\
@@ -52,3 +63,4 @@ Print Assumptions C09_double_sign_tombstones.
 Print Assumptions C09_tombstoned_forever.
 Print Assumptions C09_tombstoned_never_regains_power.
 Print Assumptions C09_jailed_never_in_index_all_histories.
+Print Assumptions C09_jailed_absent_from_the_reported_set.
